@@ -15,7 +15,7 @@ def toRTok (strings : Array (List Nat)) (kws softs : List (List Nat)) (t : Tok5)
   { ty := t.ty, strId := intern strings t.str, isKw := kws.contains t.str, isSoft := softs.contains t.str }
 
 inductive Out where
-  | tokenizerError (e : Err)
+  | tokenizerError (e : Err) (assumed : Bool)   -- assumed: a helper the recogniser cannot evaluate was taken to succeed before that
   | parsed (o : Outcome) (first : St)
 deriving Repr, Inhabited
 
@@ -34,7 +34,7 @@ def parseString (E : Env) (P : Pats) (T : Tables) (fuel : Nat) (src : List Nat) 
   let w := ((kept E run.toks).map (toRTok T.strings T.kws T.softs)).toArray
   let r := parse T.prog w fuel T.start
   match run.err, r.1 with
-  | some e, .tokErr => .tokenizerError e
+  | some e, .tokErr => .tokenizerError e (r.2.1.assumed || (r.2.2.1.map (·.assumed)).getD false)
   | _, o => .parsed o r.2.1
 
 end XV.Pipe
